@@ -43,6 +43,10 @@ EXPLANATION = (
     '(D6) ra.save takes the element type from the flat data and the values '
     'from the row view (array[i]): every RaggedArray method that writes one '
     'of the two re-derives the other on every normal path to its exit. '
+    'Added after the bug hunt: (D1) the row handed to the HDF5 node is a freshly allocated copy '
+    '(np.ascontiguousarray): PyTables writes a caller\'s non-contiguous view whose byte strides sum to zero as raw '
+    'memory; (D2) the row view the constructor builds for loaded rows of equal length keeps the element dimensions '
+    '(rule family C05.D7 run for ra.load). '
     'Bit-identity of values, PyTables node order and scheduling are trusted/'
     'not decided.')
 
@@ -524,11 +528,30 @@ def d1_keys(ck, mod):
     else:
         s, t = st[0]
         full = (isinstance(t.slice, ast.Slice) and t.slice.lower is None and t.slice.upper is None and t.slice.step is None) or is_ellipsis(t.slice)
-        val = T(fi, s.value)
+        xv = X(fi, s.value)
+        # value-preserving re-layouts of the row: a freshly allocated array holding the same values
+        fresh = None
+        if isinstance(xv, ast.Call) and len(xv.args) == 1 and call_name(xv) in ('np.ascontiguousarray', 'np.array', 'np.copy', 'np.require') and \
+                all(k.arg in ('order', 'requirements', 'copy', 'subok') for k in xv.keywords) and const_value(kwarg(xv, 'copy'), True) is not False:
+            fresh, xv = call_name(xv), xv.args[0]
+        elif isinstance(xv, ast.Call) and isinstance(xv.func, ast.Attribute) and xv.func.attr == 'copy' and not xv.args and \
+                all(k.arg == 'order' for k in xv.keywords):
+            fresh, xv = '.copy()', xv.func.value
+        val = u(xv)
         if full and val in rows:
             ck.ok(rule + '.node', mod, s, u(s), 'row data written whole')
+            # PyTables (tables/flavor.py conv_to_numpy) copies a non-contiguous array into C order only
+            # `if not nparr.flags.contiguous and sum(nparr.strides) != 0` (the second test is meant to spare
+            # zero-stride broadcast arrays): a caller's view whose byte strides happen to add up to zero - a
+            # reversed (n, 1) column has strides (-8, 8) - is written as the raw memory behind its first element.
+            ck.check(fresh is not None, rule + '.node.contiguous', mod, s, F, 'layout of the row handed to the HDF5 node',
+                     'the node receives a freshly allocated copy (%s): positive strides, never a caller\'s view' % fresh,
+                     'the node receives the caller\'s array object as it is (`%s`).  PyTables copies a non-contiguous array into C order '
+                     'only when its byte strides do not sum to zero; a view such as np.arange(8.).reshape(8, 1)[:4][::-1] (strides (-8, 8)) '
+                     'is written as the memory that follows its first element: ra.load returns [3, 4, 5, 6] for the saved [3, 2, 1, 0], '
+                     'silently.  save must hand over np.ascontiguousarray(<row>)' % u(s.value)[:60])
         else:
-            v = classify(X(fi, s.value), sorted(rows), scope={ARR, I}) if full else ('near', 1, None)
+            v = classify(xv, sorted(rows), scope={ARR, I}) if full else ('near', 1, None)
             ck.decide(v, rule + '.node', mod, s, F, u(s), '', 'the node of row i must receive the whole row: node[:] = array[i]')
     # --- D4 atom dtype
     if 'atom' not in a:
@@ -1633,6 +1656,25 @@ def _part(ck, name, f, *a):
         ck.missing('C15', 'rule code could not analyse %s (%s: %s)' % (name, type(e).__name__, e))
 
 
+def d_load_trailing_dims(ck, mod):
+    """ra.load hands the concatenated nodes - of shape (sum of lengths, d...) for
+    multi-dimensional rows, which it supports explicitly - to RaggedArray(data,
+    lengths=...); len(), a[i] and ra.save read the constructor's row view.  For
+    rows of equal length that view is the rectangular fast path, which must
+    keep the element dimensions (rule family C05.D7, run here for the storage
+    round trip)."""
+    from .C05 import trailing_dims
+    rule = 'C15.D2.rows-rebuilt.trailing-dims'
+    ld = mod.functions.get('load')
+    wraps = [c for c in calls_in(ld) if tail(c) == 'RaggedArray'] if ld is not None else []
+    if not wraps:
+        ck.missing(rule, 'ra.load building its result with RaggedArray(<data>, lengths=...)')
+        return
+    n = trailing_dims(ck, mod, rule)
+    if n == 0:
+        ck.ok(rule, mod, ld, 'RaggedArray.__init__ has no rectangular fast path', 'rows are cut from the flat data along the first axis only')
+
+
 def d_stride_every_path(ck):
     """Added after the seeding rounds (DESIGN.md 11.2, G3): `stride` must reach
     the returned data on EVERY return path of every loader that takes it (a
@@ -1655,6 +1697,7 @@ def check(ck):
     _part(ck, 'ra.save', d1_keys, mod)
     _part(ck, 'ra.load', d_load, mod)
     _part(ck, 'RaggedArray row view vs flat data', d_rows_current, mod)
+    _part(ck, 'row view of loaded multi-dimensional rows', d_load_trailing_dims, mod)
     lo = ck.repo.mod(LO)
     _part(ck, 'sound_trajectory', d_sound, lo)
     _part(ck, 'load_as_concatenated', d_concat, lo)
